@@ -121,6 +121,10 @@ def step (d : DSt) (fs : List String) : DSt × String :=
       | .ok l => ({ cfg := cfg, shape := sh, st := { pol := pol, links := l, store := pol } }, "ok")
       | .error e => (d, showEErr e)
     | _, _, _, _, _, _, _, _, _, _ => (d, "bad-op")
+  | ["setstore", p, g, g2] =>
+    match decRules p, decRules g, decRules g2 with
+    | some p, some g, some g2 => ({ d with st := { d.st with store := { p := p, g := g, g2 := g2 } } }, "model=-#~#~")
+    | _, _, _ => (d, "bad-op")
   | "op" :: rest =>
     match parseOp rest with
     | none => (d, "bad-op")
